@@ -76,10 +76,10 @@ C19 = ['C19']
 def claim(cond, n, cat, props=C19):
     """ensures-clauses of a fixed-length tokenizer: claims `n` characters iff cond"""
     return [
-        P(props, 'claims', '(%s) ==> result is not None and result.text == jointext(text.Q[old(text.i):old(text.i) + %d]) '
+        P(props, 'claims', 'old(%s) ==> result is not None and result.text == jointext(text.Q[old(text.i):old(text.i) + %d]) '
                            'and result.position == old(text.i) and result.cat == %s and text.i == old(text.i) + %d'
           % (cond, n, cat, n)),
-        P(props, 'passes', 'not (%s) ==> result is None and text.i == old(text.i)' % cond),
+        P(props, 'passes', 'not old(%s) ==> result is None and text.i == old(text.i)' % cond),
     ] + TK_KEEP
 
 
@@ -96,11 +96,11 @@ REG.add(Contract('tokens.tokenize_math_sym_switch', types=TK_TYPES, result='tok?
                  ensures=claim('text.Q[text.i].cat == CC.MathSwitch and text.i + 1 < len(text.Q) and '
                                'text.Q[text.i + 1].cat == CC.MathSwitch', 2, 'TC.DisplayMathSwitch', ['C19', 'C12'])[:1] +
                  [P(['C19', 'C12'], 'claims-single',
-                    '(text.Q[text.i].cat == CC.MathSwitch and not (text.i + 1 < len(text.Q) and '
+                    'old(text.Q[text.i].cat == CC.MathSwitch and not (text.i + 1 < len(text.Q) and '
                     'text.Q[text.i + 1].cat == CC.MathSwitch)) ==> result is not None and '
                     'result.text == jointext(text.Q[old(text.i):old(text.i) + 1]) and result.position == old(text.i) '
                     'and result.cat == TC.MathSwitch and text.i == old(text.i) + 1'),
-                  P(['C19', 'C12'], 'passes', 'text.Q[text.i].cat != CC.MathSwitch ==> result is None and '
+                  P(['C19', 'C12'], 'passes', 'old(text.Q[text.i].cat != CC.MathSwitch) ==> result is None and '
                                               'text.i == old(text.i)')] + TK_KEEP))
 
 ASYM = {'BracketBegin': 'DisplayMathGroupBegin', 'BracketEnd': 'DisplayMathGroupEnd', 'ParenBegin': 'MathGroupBegin',
@@ -108,11 +108,11 @@ ASYM = {'BracketBegin': 'DisplayMathGroupBegin', 'BracketEnd': 'DisplayMathGroup
 _asym_ens = []
 for _cc, _tc in ASYM.items():
     _asym_ens.append(P(['C19', 'C12'], 'claims-' + _cc,
-                       '(text.i + 1 < len(text.Q) and text.Q[text.i].cat == CC.Escape and text.Q[text.i + 1].cat == CC.%s) '
+                       'old(text.i + 1 < len(text.Q) and text.Q[text.i].cat == CC.Escape and text.Q[text.i + 1].cat == CC.%s) '
                        '==> result is not None and result.text == jointext(text.Q[old(text.i):old(text.i) + 2]) and '
                        'result.position == old(text.i) and result.cat == TC.%s and text.i == old(text.i) + 2' % (_cc, _tc)))
 _asym_ens.append(P(['C19', 'C12'], 'passes',
-                   'not (text.i + 1 < len(text.Q) and text.Q[text.i].cat == CC.Escape and text.Q[text.i + 1].cat in '
+                   'not old(text.i + 1 < len(text.Q) and text.Q[text.i].cat == CC.Escape and text.Q[text.i + 1].cat in '
                    '(CC.BracketBegin, CC.BracketEnd, CC.ParenBegin, CC.ParenEnd)) ==> result is None and '
                    'text.i == old(text.i)'))
 REG.add(Contract('tokens.tokenize_math_asym_switch', types=TK_TYPES, result='tok?', requires=TK_REQ,
@@ -128,11 +128,11 @@ SYM = {'Escape': 'Escape', 'GroupBegin': 'GroupBegin', 'GroupEnd': 'GroupEnd', '
 _sym_ens = []
 for _cc, _tc in SYM.items():
     _sym_ens.append(P(['C19', 'C09'], 'claims-' + _cc,
-                      'text.Q[text.i].cat == CC.%s ==> result is not None and '
+                      'old(text.Q[text.i].cat == CC.%s) ==> result is not None and '
                       'result.text == jointext(text.Q[old(text.i):old(text.i) + 1]) and result.position == old(text.i) '
                       'and result.cat == TC.%s and text.i == old(text.i) + 1' % (_cc, _tc)))
 _sym_ens.append(P(['C19', 'C09'], 'passes',
-                  'text.Q[text.i].cat not in (CC.Escape, CC.GroupBegin, CC.GroupEnd, CC.BracketBegin, CC.BracketEnd) '
+                  'old(text.Q[text.i].cat not in (CC.Escape, CC.GroupBegin, CC.GroupEnd, CC.BracketBegin, CC.BracketEnd)) '
                   '==> result is None and text.i == old(text.i)'))
 REG.add(Contract('tokens.tokenize_symbols', types=TK_TYPES, result='tok?', requires=TK_REQ,
                  modifies=['text.i', 'text.m'], props=['C19', 'C06', 'C09'], ensures=_sym_ens + TK_KEEP))
@@ -148,7 +148,7 @@ def run_inv(var, extra=()):
 
 
 # comment: '%' and everything up to (not including) the next EndOfLine character or the end of input   (C10)
-_CM = 'text.Q[text.i].cat == CC.Comment and (prev is None or prev.cat != CC.Comment)'
+_CM = 'old(text.Q[text.i].cat == CC.Comment and (prev is None or prev.cat != CC.Comment))'
 REG.add(Contract(
     'tokens.tokenize_line_comment', types=TK_TYPES, result='tok?', requires=TK_REQ, modifies=['text.i', 'text.m'],
     props=['C19', 'C06', 'C10'],
@@ -220,8 +220,7 @@ def cnt_facts(eng, st, binding, pre):
     for ref, Q, i0, i1 in moved_buffers(st, binding, pre):
         d = simplify(i1 - i0)
         for c in tracked(eng):
-            if z3.is_int_value(d) and d.as_long() == 1:
-                st.fact(CNT(Q, c, i0, i0 + 1) == If(Tok.cat(Q[i0]) == c, 1, 0))
+            st.fact(Implies(i1 == i0 + 1, CNT(Q, c, i0, i1) == If(Tok.cat(Q[i0]) == c, 1, 0)))
             for a in st.ghost.get('anchors:' + ref, []):
                 st.fact(Implies(And(a <= i0, i0 <= i1), CNT(Q, c, a, i1) == CNT(Q, c, a, i0) + CNT(Q, c, i0, i1)))
                 st.fact(CNT(Q, c, a, a) == 0)
@@ -229,6 +228,35 @@ def cnt_facts(eng, st, binding, pre):
 
 
 REG.post_hooks.append(cnt_facts)
+
+
+def charlen_lemma(eng, st, binding, pre):
+    """L-len (trusted lemma, induction on the slice): over a character buffer (every item one code point, requires
+    clause `characters`) jointext of a slice has as many characters as the slice has items"""
+    if eng.cur is None or not (eng.cur.qual.startswith('tokens.') and 'self' in binding):
+        return
+    obj = binding['self']
+    if obj.ty != 'obj' or 'Q' not in st.heap.get(obj.a['ref'], {}):
+        return
+    Q = st.heap[obj.a['ref']]['Q'].z
+    i0 = pre.heap[obj.a['ref']]['i'].z
+    j = binding.get('j')
+    from pyvc.sorts import zmin, zmax
+    if j is not None and j.ty == 'tuple':
+        x = sl(Q, i0 + j.a['items'][0].z, i0 + j.a['items'][1].z)
+    elif j is not None and j.ty == 'int' and 'result' in binding and binding['result'].ty == 'tok' and \
+            eng_callee(binding) == 'forward':
+        x = sl(Q, zmin(i0, i0 + j.z), zmax(i0, i0 + j.z))
+    else:
+        return
+    st.fact(Length(JT(x)) == Length(x))
+
+
+def eng_callee(binding):
+    return binding.get('$callee', 'forward')
+
+
+REG.post_hooks.append(charlen_lemma)
 
 
 def cnt_base(eng, st, *_):
